@@ -633,3 +633,4 @@ package spg
 
 //@ func NewSFFunction
 //@   ensures [C16] closure: res != nil
+//@   ensures [C16,C06] is-sfwrap: closureof(res, "NewSFFunction$1")
